@@ -59,6 +59,9 @@ def _parse(spec):
 _CFG_KEYS = ("VERIF_LOG", "VERIF_CRASH_AT", "VERIF_RAISE_AT", "VERIF_GATE_DIR", "VERIF_SLEEP_AT")
 
 
+_job_dirs = {}
+
+
 def handle(name, fields):
     global _seq, _gate_k
     if not any(os.environ.get(k) for k in _CFG_KEYS):
@@ -66,6 +69,16 @@ def handle(name, fields):
     _seq += 1
     job = fields.get("job")
     jname = getattr(job, "name", None)
+    # the points inside result.save() / record_error() carry the job directory only: name the job through the
+    # directories seen so far, so that a fault aimed at one job (VERIF_FAULT_JOB) is not taken by a nested job's save
+    try:
+        if job is not None:
+            _job_dirs[str(job.cache_dir)] = jname
+        elif "path" in fields:
+            pth = str(fields["path"])
+            jname = _job_dirs.get(pth) or _job_dirs.get(os.path.dirname(pth))
+    except Exception:
+        pass
     rec = {"t": os.environ.get("VERIF_TID", ""), "p": _proc(), "pid": os.getpid(), "q": _seq, "a": name}
     if job is not None:
         rec["job"] = jname
@@ -106,7 +119,7 @@ def handle(name, fields):
     emit(rec)
     # fault injection
     fault_job = os.environ.get("VERIF_FAULT_JOB")
-    if not fault_job or fault_job == jname or job is None:
+    if not fault_job or fault_job == jname or (job is None and jname is None):
         key = name
         _counts[key] = _counts.get(key, 0) + 1
         p, n = _parse(os.environ.get("VERIF_CRASH_AT"))
